@@ -9,6 +9,15 @@ COMMON_ASSUME = [
 ]
 
 PROPS = {
+  'C16': {
+    'rule': 'cases = (determinate pthread program: 1..6 threads created with NULL / default / stack-size attribute objects, returning or calling pthread_exit, all running one generated list of up to 20 phases: lock-protected counters on three PTHREAD_MUTEX_INITIALIZER mutexes (first use by several threads at once), trylock loops, barrier phases with serial-thread count, condvar turnstile and gate, spin-lock sections, once with three routines, four keys (three with destructors that ignore NULL), child threads created with no / default / stack-size / detached attributes and joined or awaited, sched_yield, usleep, pthread_self/equal; W in 1..8; schedule bytes for the controlled run); '
+            'each case is run on system pthreads (reference) and in four redirected ways: LD_PRELOAD of libmyth-dl, link-time wrapped with pass-through, link-time wrapped under a controlled schedule, link-time wrapped free running; non-trivial = the program uses >= 3 API groups and W >= 2; distinct = hash of (program bytes, W)',
+    'assumptions': ['programs are determinate by construction; only stdout and exit status are compared, never error codes', 'a wall-clock timeout of a free-running variant is inconclusive; DEADLOCK / STUCK verdicts of the controlled variant are violations', 'spin-lock holders never yield (user-level threads)'],
+    'stages': [
+      {'kind': 'replays', 'name': 'replay', 'variant': 'v0', 'pth_clients': True},
+      {'kind': 'pbt', 'name': 'pthread-differential', 'variant': 'v0', 'prop': 16, 'cases': (220, 3000), 'prog_max': 80, 'sched_max': 384, 'pth_clients': True, 'timeout': 120},
+    ],
+  },
   'C18': {
     'rule': 'cases = (well-nested task program of up to 200 (quick) / 5000 (thorough) operations from the grammar task ::= (section|other)* end; section ::= (create(task)|section|other)* wait, generated busy-work per interval, serial simulation of a work-stealing run on W in 1..8 virtual workers with generated start/resume workers, generated contraction options (collapse_max, uncollapse_min, collapse_max_count, node_count_target/prune_threshold, chk_level), 1..50 file names); '
             'non-trivial = the dumped DAG has fewer materialised nodes than logical nodes (something was contracted) AND intervals of >= 2 workers; distinct = hash of (program bytes, W)',
